@@ -1,7 +1,7 @@
 """C08 - Statistics equal their definitions and are additive over windows (schedule clause and plumbing only)."""
 from __future__ import annotations
 
-from . import scopes, lib_mem, lib_kind
+from . import scopes, lib_mem, lib_kind, lib_kind4
 import json
 
 from . import lib_stats, lib_module, lib_py, lib_guards, lib_sweep
@@ -42,6 +42,7 @@ def run(ctx):
     lib_py.kw_forward(ctx, py, mods=("trees", "stats"), only=ps)
     lib_py.unused_params(ctx, py, mods=("trees", "stats"), only=ps)
     lib_kind.py_lints(ctx, py, mods=("trees", "stats"), only=ps)
+    lib_kind4.sample_row_index(ctx, py)
     lib_kind.py_windows_parity(ctx, py, [("trees", "TreeSequence.genetic_relatedness_matrix")])
     lib_py.ll_positional(ctx, py, P, only=ps)
     lib_module.name_agreement(ctx, P, classes=("TreeSequence", "LdCalculator"), floor=60)
